@@ -128,10 +128,9 @@ class MetricsDriver:
             self.nsid += 1
             sid = self.nsid
             cb = self._cb(sid, sid % 2 == 0)
-            if k == "s":
-                w.do(str(t), "sscope", sid, [], cb)
-            else:
-                w.do(str(t), "ascope", sid, [], None, cb)
+            # every scope carries the SAME name (scope names need not be unique - two streams of one generator, two
+            # handlers of one kind): nothing about completion may be keyed by the name
+            w.do(str(t), "xscope", k == "a", sid, "metric-scope", dict(completion=cb))
             self.depth[str(t)] += 1
             return self._obs("open", self._res(t))
         if name == "Close":
